@@ -13,6 +13,7 @@ import (
 	"os"
 	"os/exec"
 	"strings"
+	"sync/atomic"
 	"time"
 
 	"github.com/gopcua/opcua"
@@ -34,6 +35,9 @@ type c22Case struct {
 	Variant string `json:"signature_variant"`
 	Bits    int    `json:"key_bits"`
 	Index   int64  `json:"index"`
+	// Second: the same client object first connects against a valid signature and is closed; the variant is what
+	// the server answers to the second CreateSession of that client
+	Second bool `json:"second_connect_of_the_same_client,omitempty"`
 }
 
 var c22Variants = []string{"valid", "bitflip", "empty", "null", "other-key", "other-data", "truncated", "extended", "garbage-cert", "ecdsa-cert", "empty-cert", "other-cert"}
@@ -53,6 +57,7 @@ func c22Client(arg string) int {
 		Mode     int
 		Bits     int
 		SrvCert  string // key name of the server certificate the client is configured with
+		Second   bool
 	}
 	if err := json.Unmarshal([]byte(arg), &a); err != nil {
 		fmt.Fprintln(os.Stderr, err)
@@ -71,6 +76,17 @@ func c22Client(arg string) int {
 		ctx, cancel := context.WithTimeout(context.Background(), 20*time.Second)
 		err = cl.Connect(ctx)
 		cancel()
+		if a.Second {
+			out["first_connect_ok"] = err == nil
+			if err == nil {
+				cctx, ccancel := context.WithTimeout(context.Background(), 5*time.Second)
+				cl.Close(cctx)
+				ccancel()
+				ctx, cancel = context.WithTimeout(context.Background(), 20*time.Second)
+				err = cl.Connect(ctx)
+				cancel()
+			}
+		}
 		out["connect_error"] = ""
 		if err != nil {
 			out["connect_error"] = err.Error()
@@ -99,7 +115,11 @@ func c22One(c *fw.Ctx, cs c22Case) {
 		return
 	}
 	defer srv.Close()
+	var nCreate int32
 	srv.SessionSig = func(valid, clientCert, clientNonce []byte) []byte {
+		if cs.Second && atomic.AddInt32(&nCreate, 1) == 1 {
+			return valid
+		}
 		switch cs.Variant {
 		case "bitflip":
 			b := append([]byte{}, valid...)
@@ -134,19 +154,22 @@ func c22One(c *fw.Ctx, cs c22Case) {
 	}
 	activated := false
 	srv.Handler = func(sc *refpeer.SrvConn, m *refpeer.Msg) {
-		if _, ok := m.Service.(*ua.ActivateSessionRequest); ok {
+		if _, ok := m.Service.(*ua.ActivateSessionRequest); ok && (!cs.Second || atomic.LoadInt32(&nCreate) > 1) {
 			activated = true
 		}
 		if !srv.Default(sc, m) {
 			sc.Fault(m, ua.StatusBadServiceUnsupported)
 		}
 	}
-	arg, _ := json.Marshal(map[string]interface{}{"Endpoint": srv.Endpoint(), "Policy": cs.Policy, "Mode": cs.Mode, "Bits": cs.Bits})
+	arg, _ := json.Marshal(map[string]interface{}{"Endpoint": srv.Endpoint(), "Policy": cs.Policy, "Mode": cs.Mode, "Bits": cs.Bits, "Second": cs.Second})
 	out, stderr, rc, timedOut := sut.RunChild("c22-client", string(arg), 60*time.Second)
 	c.Eval(1)
 	c.Class("variant:"+cs.Variant, 1)
 	c.Class("policy:"+p.Name, 1)
-	c.Nontrivial(fmt.Sprintf("%s/%d/%s/%d", p.Name, cs.Mode, cs.Variant, cs.Bits))
+	c.Nontrivial(fmt.Sprintf("%s/%d/%s/%d/%v", p.Name, cs.Mode, cs.Variant, cs.Bits, cs.Second))
+	if cs.Second {
+		c.Class("second-connect-of-the-same-client", 1)
+	}
 	if timedOut {
 		c.Inconclusive("client child did not finish within the watchdog")
 		return
@@ -185,6 +208,17 @@ func c22Run(c *fw.Ctx) error {
 			}
 		}
 	}
+	// the same client object connecting a second time: what it learnt in the first session must not replace the proof
+	for _, p := range refpeer.Policies {
+		for _, mode := range []int{2, 3} {
+			for _, v := range []string{"valid", "bitflip", "empty", "other-key", "other-data"} {
+				if c.Quick() && (mode == 2) != (v == "bitflip" || v == "valid") {
+					continue
+				}
+				cases = append(cases, c22Case{Policy: p.URI, Mode: mode, Variant: v, Bits: 2048, Second: true})
+			}
+		}
+	}
 	reps := c.Pick(1, 6)
 	idx := int64(0)
 	for rep := 0; rep < reps; rep++ {
@@ -194,7 +228,7 @@ func c22Run(c *fw.Ctx) error {
 			if int(i%int64(c.NBatch)) != c.Batch || i < c.Resume {
 				continue
 			}
-			if c.Quick() && cs.Mode == 2 && int(i)%2 == 0 && cs.Variant != "valid" {
+			if c.Quick() && cs.Mode == 2 && int(i)%2 == 0 && cs.Variant != "valid" && !cs.Second {
 				continue
 			}
 			cs.Index = i
@@ -219,7 +253,7 @@ func init() {
 	fw.Register("C22", fw.Spec{
 		Plan: func(tier string) fw.Plan {
 			p := fw.Plan{Batches: 16, TimeoutS: 600, MinNontrivial: 40, Level: "exploration",
-				Rule:        "gopcua client (own child process per connect) against the scripted refpeer server over real secured channels: 5 policies x {Sign, SignAndEncrypt} x server-signature variants {valid, bit-flipped, empty, null, made with another key, made over other data, truncated, extended, garbage / ECDSA / empty / foreign server certificate in the response}; oracle: Connect succeeds iff the variant is 'valid', no ActivateSession is sent without proof, state is not Connected after an error, the child does not die; distinct = (policy, mode, variant, key size)",
+				Rule:        "gopcua client (own child process per connect) against the scripted refpeer server over real secured channels: 5 policies x {Sign, SignAndEncrypt} x server-signature variants {valid, bit-flipped, empty, null, made with another key, made over other data, truncated, extended, garbage / ECDSA / empty / foreign server certificate in the response}; plus the same variants answered to the second CreateSession of a client object that connected successfully before and was closed; oracle: Connect succeeds iff the variant is 'valid', no ActivateSession is sent without proof, state is not Connected after an error, the child does not die; distinct = (policy, mode, variant, key size)",
 				Assumptions: []string{"the server certificate configured at the client is the scripted server's"}}
 			if tier == "thorough" {
 				p.TimeoutS, p.MinNontrivial = 3000, 200
